@@ -476,9 +476,14 @@ func (c *Ctx) minLenAt(n ast.Node, base string, stop ast.Node) int64 {
 						})
 					}
 				}
-				if ifs, ok := s.(*ast.IfStmt); ok && ifs.Else == nil && terminating(ifs.Body) && len(conjuncts(ifs.Cond)) == 1 {
-					_, f := c.lenBound(ifs.Cond, base)
-					upd(f)
+				if ifs, ok := s.(*ast.IfStmt); ok && ifs.Else == nil && terminating(ifs.Body) {
+					// past `if a || b { return }` neither a nor b held
+					for _, dj := range disjuncts(ifs.Cond) {
+						if len(conjuncts(dj)) == 1 {
+							_, f := c.lenBound(dj, base)
+							upd(f)
+						}
+					}
 				}
 			}
 		case *ast.CaseClause:
@@ -848,4 +853,13 @@ func (c *Ctx) foundIndex(n ast.Node, id *ast.Ident, base string, stop ast.Node) 
 		}
 	}
 	return ""
+}
+
+// disjuncts of a || b || c.
+func disjuncts(e ast.Expr) []ast.Expr {
+	e = unparen(e)
+	if be, ok := e.(*ast.BinaryExpr); ok && be.Op == token.LOR {
+		return append(disjuncts(be.X), disjuncts(be.Y)...)
+	}
+	return []ast.Expr{e}
 }
